@@ -144,7 +144,7 @@ def _walk(m):
 
 def plan(tier, seed, excl):
     q = tier == 'quick'
-    return [('docs', {'src': s, 'shard': i, 'n': 400 if q else 6000}) for s in ('zinc', 'json') for i in range(8)]
+    return [('docs', {'src': s, 'shard': i, 'n': 700 if q else 6000}) for s in ('zinc', 'json') for i in range(8)]
 
 
 def run(part, args, env):
